@@ -399,6 +399,159 @@ def pinned_calls(rows):
                         for vops in ([ops] + ([[o for o, d in zip(ops, row["ops"]) if not d["implicit"]]] if any(d["implicit"] for d in row["ops"]) else [])):
                             out.append({"mode": mode, "base": None, "row": row["id"], "name": row["name"], "opt": 0, "extra": extra, "ops": vops, "deco": deco,
                                         "strat": "pinned-base%d-disp%d" % (base, disp), "memform": True})
+            # (1b) round 5: the case-split boundaries of the proofs (X86Proofs.dec_disp_enc / dec_disp16_enc / adm's choice of mod; the
+            # immediate matcher), walked for EVERY row in its widest mode: displacements N*127 / N*128 / -N*128 / -N*129 (last and
+            # first value of the disp8*N and disp32 forms), N*127+1 and N-1 (not a multiple of N: disp32 resp. no compression), N
+            # the memory operand size of EVEX rows and 1 otherwise; immediates at 2^(b-1)-1, 2^(b-1), -2^(b-1), 2^b-1, -1, 0
+            if mode == modes[-1]:
+                nn = (row["msz"] or 1) if row["kind"] == 3 else 1
+                for mk in mem_idx[:1]:
+                    for disp in [nn * 127, nn * 128, -nn * 128, -nn * 129] + ([nn * 127 + 1, nn - 1] if nn > 1 else []):
+                        ops = low_ops(mode, memk=mk, base=1, disp=disp)
+                        if ops is None or len(ops) > 6:
+                            continue
+                        extra = "-"
+                        deco = dict(d0)
+                        if row["vsib"] and row["kind"] == 3:
+                            extra = "9:1"; deco["k"] = 1
+                        out.append({"mode": mode, "base": None, "row": row["id"], "name": row["name"], "opt": 0, "extra": extra,
+                                    "ops": [o for o, d in zip(ops, row["ops"]) if not d["implicit"]], "deco": deco,
+                                    "strat": "pinned-disp-boundary", "memform": True})
+                for ik, di in enumerate(row["ops"]):
+                    if di["slot"] == 6 and di.get("immbits", 0) in (8, 16, 32):
+                        b_ = di["immbits"]
+                        for val in (2 ** (b_ - 1) - 1, 2 ** (b_ - 1), -2 ** (b_ - 1), 2 ** b_ - 1, -1, 0):
+                            ops = low_ops(mode, memk=None, base=1, disp=0)
+                            if ops is None or len(ops) > 6:
+                                continue
+                            if val == 0 and row["name"] in ("ret", "retf"):
+                                continue    # ret 0 is canonically the plain ret (C3 / CB)
+                            ops = [list(o) for o in ops]
+                            ops[ik] = ["I", val]
+                            out.append({"mode": mode, "base": None, "row": row["id"], "name": row["name"], "opt": 0, "extra": "-",
+                                        "ops": [o for o, d in zip(ops, row["ops"]) if not d["implicit"]], "deco": dict(d0),
+                                        "strat": "pinned-imm-boundary", "memform": False})
+            # (1c) round 5: EVEX rows, 64-bit mode -- each extension bit on its own: every vector / mask-capable register operand as
+            # id 16 and 31 (R' / V' / X as the high bit of ModRM.reg / vvvv / ModRM.rm), the VSIB index as 16 and 31, {k7}, {k1}{z},
+            # every rounding mode of {er} rows and {sae}; everything else low
+            if mode == 64 and row["kind"] == 3:
+                vec_idx = [k for k, d in enumerate(row["ops"]) if d["kind"] in (0, 2) and d["cls"] in (6, 7, 8) and d["fixed"] < 0]
+                variants = []
+                for memk in ([None] if not mem_idx or any(row["ops"][k]["kind"] == 2 for k in mem_idx) else []) + mem_idx[:1]:
+                    base_ops = low_ops(64, memk=memk, base=1, disp=0)
+                    if base_ops is None or len(base_ops) > 6:
+                        continue
+                    isreg = memk is None
+                    for vk in vec_idx:
+                        if vk == memk:
+                            continue
+                        for hid in (16, 31):
+                            o2 = [list(o) for o in base_ops]; o2[vk] = ["R", row["ops"][vk]["cls"], hid]
+                            variants.append((o2, {}, "hi%d" % hid, not isreg))
+                    if row["vsib"] and memk is not None:
+                        for hid in (16, 31):
+                            o2 = [list(o) for o in base_ops]; o2[memk][6] = hid
+                            variants.append((o2, {}, "vsib%d" % hid, True))
+                    if row["k"]:
+                        variants.append(([list(o) for o in base_ops], {"k": 7}, "k7", not isreg))
+                        if row["z"] and not (memk is not None and memk == 0):
+                            variants.append(([list(o) for o in base_ops], {"k": 1, "z": 1}, "k1z", not isreg))
+                    if isreg and (row["er"] or row["sae"]) and row["l"] in (2, 3):
+                        for rc in ((0, 1, 2, 3) if row["er"] else (4,)):
+                            variants.append(([list(o) for o in base_ops], {"rc": rc}, "rc%d" % rc, False))
+                for o2, dd, tag, mf in variants:
+                    deco = dict(d0); deco.update(dd)
+                    extra = "-"
+                    if row["vsib"] and not deco["k"]:
+                        deco["k"] = 1
+                    if deco["k"]:
+                        extra = "9:%d" % deco["k"]
+                    opt = (OPT["z"] if deco["z"] else 0)
+                    if deco["rc"] >= 0:
+                        opt |= OPT["sae"] if deco["rc"] == 4 else (OPT["er"] | (deco["rc"] << 21))
+                    out.append({"mode": 64, "base": None, "row": row["id"], "name": row["name"], "opt": opt, "extra": extra,
+                                "ops": [o for o, d in zip(o2, row["ops"]) if not d["implicit"]], "deco": deco, "strat": "pinned-evex-" + tag, "memform": mf})
+            # (1g) round 5: branch displacements at the rel8 / rel32 (rel16) boundary: a label bound 120 .. 131 and 32760 .. 32770 bytes
+            # in front of the instruction, without and with the short / long form options
+            if any(d["slot"] == 10 for d in row["ops"]):
+                for delta in list(range(120, 132)) + list(range(32760, 32771)):
+                    for fo in (0, 0x10, 0x20):
+                        o2 = low_ops(mode, memk=None, base=1, disp=0)
+                        if o2 is None or len(o2) > 6:
+                            continue
+                        o2 = [["L", delta] if o[0] == "L" else list(o) for o in o2]
+                        out.append({"mode": mode, "base": None, "row": row["id"], "name": row["name"], "opt": fo, "extra": "-",
+                                    "ops": [o for o, d in zip(o2, row["ops"]) if not d["implicit"]], "deco": dict(d0), "strat": "pinned-rel-boundary", "memform": False})
+            # (1f) round 5: encoding options, once per row in its widest mode: {vex3} and {evex} on VEX rows, {rex} on legacy rows,
+            # lock on the memory form of lockable rows and on their register form (which must be refused or still be correct)
+            if mode == modes[-1]:
+                lockable_ = "lock" in row["src"]["prefixes"] and row["ops"] and row["ops"][0]["kind"] in (1, 2)
+                optv = []
+                if row["kind"] == 1:
+                    optv += [(OPT["vex3"], {}, "vex3", None), (OPT["evex"], {}, "evex", None)]
+                if row["kind"] == 0 and mode == 64:
+                    optv += [(OPT["rex"], {}, "rex", None)]
+                if lockable_ and mem_idx and mem_idx[0] == 0:
+                    optv += [(OPT["lock"], {"lock": 1}, "lock-mem", 0)]
+                    if row["ops"][0]["kind"] == 2:
+                        optv += [(OPT["lock"], {"lock": 1}, "lock-reg", None)]
+                for ov, dd, tag, mk_ in optv:
+                    mk2 = mk_ if mk_ is not None else (None if (not mem_idx or any(row["ops"][k]["kind"] == 2 for k in mem_idx)) else mem_idx[0])
+                    if tag in ("vex3", "evex", "rex") and mem_idx and mk2 is None and all(row["ops"][k]["kind"] == 1 for k in mem_idx):
+                        mk2 = mem_idx[0]
+                    o2 = low_ops(mode, memk=mk2, base=1, disp=0)
+                    if o2 is None or len(o2) > 6:
+                        continue
+                    deco = dict(d0); deco.update(dd)
+                    extra = "-"
+                    if row["vsib"] and row["kind"] == 3:
+                        extra = "9:1"; deco["k"] = 1
+                    out.append({"mode": mode, "base": None, "row": row["id"], "name": row["name"], "opt": ov, "extra": extra,
+                                "ops": [o for o, d in zip(o2, row["ops"]) if not d["implicit"]], "deco": deco, "strat": "pinned-opt-" + tag,
+                                "memform": mk2 is not None})
+            # (1e) round 5: every row with a ModRM memory operand, 32-bit mode -- all nine 16-bit addressing forms with displacement 0
+            # (the table of mod16 rm codes; [bp] needs a disp8 of 0) and [bp+1], [disp16]
+            if mode == 32 and mem_idx and not row["vsib"] and not row["src"].get("tsib"):
+                mk = mem_idx[0]
+                for b16, i16, dsp in [(3, 6, 0), (3, 7, 0), (5, 6, 0), (5, 7, 0), (6, None, 0), (7, None, 0), (5, None, 0), (3, None, 0), (5, None, 1), (None, None, 0x1234)]:
+                    o2 = low_ops(32, memk=mk, base=1, disp=dsp)
+                    if o2 is None or len(o2) > 6:
+                        continue
+                    o2 = [list(o) for o in o2]
+                    m_ = o2[mk]
+                    m_[3], m_[4] = (2, b16) if b16 is not None else (0, 0)
+                    m_[5], m_[6] = (2, i16) if i16 is not None else (0, 0)
+                    out.append({"mode": 32, "base": None, "row": row["id"], "name": row["name"], "opt": 0, "extra": "-",
+                                "ops": [o for o, d in zip(o2, row["ops"]) if not d["implicit"]], "deco": dict(d0), "strat": "pinned-a16", "memform": True})
+            # (1d) round 5: every row, 64-bit mode -- REX / VEX / EVEX extension bits R, X, B (and vvvv bit 3) each on its own: every
+            # general-purpose / vector / control / debug register operand as id 8 and 15, the index register as 8 and 15, the base as 8
+            if mode == 64:
+                ext_idx = [k for k, d in enumerate(row["ops"]) if d["kind"] in (0, 2) and d["cls"] in (1, 2, 3, 4, 6, 7, 8, 11, 12) and d["fixed"] < 0]
+                for memk in ([None] if not mem_idx or any(row["ops"][k]["kind"] == 2 for k in mem_idx) else []) + mem_idx[:1]:
+                    base_ops = low_ops(64, memk=memk, base=1, disp=0)
+                    if base_ops is None or len(base_ops) > 6:
+                        continue
+                    vs_ = []
+                    for vk in ext_idx:
+                        if vk != memk:
+                            for hid in (8, 15):
+                                o2 = [list(o) for o in base_ops]; o2[vk] = ["R", row["ops"][vk]["cls"], hid]
+                                vs_.append((o2, "reg%d" % hid))
+                    if memk is not None:
+                        o2 = [list(o) for o in base_ops]; o2[memk][4] = 8
+                        vs_.append((o2, "base8"))
+                        if not row["vsib"] and not row["src"].get("tsib") is None:
+                            for hid in (8, 15):
+                                o2 = [list(o) for o in base_ops]; o2[memk][5] = 4; o2[memk][6] = hid
+                                vs_.append((o2, "index%d" % hid))
+                    for o2, tag in vs_:
+                        extra = "-"
+                        deco = dict(d0)
+                        if row["vsib"] and row["kind"] == 3:
+                            extra = "9:1"; deco["k"] = 1
+                        out.append({"mode": 64, "base": None, "row": row["id"], "name": row["name"], "opt": 0, "extra": extra,
+                                    "ops": [o for o, d in zip(o2, row["ops"]) if not d["implicit"]], "deco": deco, "strat": "pinned-ext-" + tag,
+                                    "memform": memk is not None})
             if mode == 64 or True:
                 for rk in r8_idx:
                     for r8 in ([(1, 4), (1, 5), (1, 6), (1, 7), (16, 0), (16, 3)] if mode == 64 else [(16, 0), (16, 3), (1, 3)]):
@@ -449,9 +602,17 @@ def pinned_calls(rows):
                                 break
                         if ops is None or len(ops) > 6:
                             continue
-                        for vops in ([ops] + ([[o for o, d in zip(ops, row["ops"]) if not d["implicit"]]] if any(d["implicit"] for d in row["ops"]) else [])):
-                            out.append({"mode": mode, "base": None, "row": row["id"], "name": row["name"], "opt": 0, "extra": "-", "ops": vops, "deco": dict(d0),
-                                        "strat": "pinned-prefix-order-%d-a%d-%s" % (mode, acls, "es-side-seg" if on_es else ("seg" if seg else "noseg")), "memform": True})
+                        reps = [(0, {}, "")]
+                        if not on_es and seg in (0, 5) and "rep" in row["src"]["prefixes"]:
+                            # rep / repne together with the overrides (and REX.W of the 64-bit forms): F3 / F2, segment, 67, REX, opcode
+                            reps.append((OPT["rep"], {"f3": 1}, "-rep"))
+                            if "repne" in row["src"]["prefixes"]:
+                                reps.append((OPT["repne"], {"f2": 1}, "-repne"))
+                        for ropt, rdeco, rtag in reps:
+                            for vops in ([ops] + ([[o for o, d in zip(ops, row["ops"]) if not d["implicit"]]] if any(d["implicit"] for d in row["ops"]) else [])):
+                                dd_ = dict(d0); dd_.update(rdeco)
+                                out.append({"mode": mode, "base": None, "row": row["id"], "name": row["name"], "opt": ropt, "extra": "-", "ops": vops, "deco": dd_,
+                                            "strat": "pinned-prefix-order-%d-a%d-%s%s" % (mode, acls, "es-side-seg" if on_es else ("seg" if seg else "noseg"), rtag), "memform": True})
     return out
 
 
@@ -752,7 +913,7 @@ def llvm_compare(c, row, text, nbytes, hexbytes, aliases):
     return probs
 
 
-def own_regen(ck, files, order):
+def own_regen(ck, files, order, after_first=None):
     """Translator tie without vlib.coq_regen's recompilation of EVERY property's gen files: if the regenerated texts equal the
     committed coq/gen files return None (fast path); otherwise compile only C01's files (in `order`) in a scratch directory that
     is then mapped to VerifGen for Properties_C01.v and the extraction.  Returns (gen_dir, failed_files, log)."""
@@ -792,6 +953,8 @@ def own_regen(ck, files, order):
         if rc != 0 or removed:
             failed.append(n)
         own_regen.removed[n] = (removed, rc == 0)
+        if n == order[0] and rc == 0 and after_first is not None:
+            after_first(wgen)       # what needs only the first file (extraction of the model) starts beside the second one
     return wgen, failed, log
 
 
@@ -805,7 +968,12 @@ def run(ck):
     tabs, insts = c01_tables.dump(dumper)
     ttext, tinfo = c01_tables.coq_text(tabs, insts, names, rows)
     th_failed = ck.coq_make(["theories/X86/X86Denote.vo", "theories/X86/X86DbCheck.vo", "theories/X86/X86Proofs.vo", "theories/X86/X86TablesSpec.vo",
-                             "theories/X86/X86UniqueProofs.vo", "theories/X86/X86JudgeProofs.vo"])
+                             "theories/X86/X86UniqueProofs.vo", "theories/X86/X86JudgeProofs.vo", "theories/X86/X86LengthProofs.vo", "theories/X86/X86Choice.vo"])
+    # the instruction-option bits the stream passes to the emitter are those of the working tree's InstOptions enum
+    opt_names = ["modmr", "modrm", "vex3", "vex", "evex", "lock", "rep", "repne", "xacquire", "xrelease", "er", "sae", "z", "rex"]
+    if tabs.get("inst_options") != [OPT[k] for k in opt_names]:
+        ck.violation("C01/inst-option-bits-changed", "InstOptions of the working tree %s differ from the bits the check passes %s"
+                     % (tabs.get("inst_options"), [OPT[k] for k in opt_names]), {"broken": "OPT table of tools/checks/c01.py"}, no_input=True)
     # AsmJit's own signature table: every mnemonic with an operand restricted to a fixed base register (kFlagMemBase) must have
     # database rows with a fixed-register / register-addressed memory operand, i.e. be walked by the complete override sweep
     fixed_sig_names = sorted(set(sg["name"] for sg in tabs.get("_sigs", [])))
@@ -816,7 +984,21 @@ def run(ck):
                      "AsmJit's signature table accepts an explicit fixed-base memory operand for %s, but no supported database row has such an "
                      "operand: the override sweep does not reach them" % (missing_fixed or "NO instruction (dump broken?)"),
                      {"broken": "coverage of the fixed-base memory operand sweep", "names": missing_fixed}, no_input=True)
-    regen = own_regen(ck, {"IsaX86Db.v": text, "X86Tables.v": ttext}, ["IsaX86Db.v", "X86Tables.v"])
+    # the extraction / OCaml build and the harness build depend on IsaX86Db.v only: they run beside X86Tables.v and Properties_C01.v
+    import threading
+    side = {}
+
+    def side_builds(gd):
+        try:
+            side["impl"] = ck.build_harness("c01", ["c01_harness.cpp"])
+            side["model"] = ck.ocaml_model("Extract_X86.v", ["zconv.ml", "c01_driver.ml"], name="c01", gen_dir=gd)
+        except Exception as e:      # re-raised in the main thread
+            side["error"] = e
+
+    def start_side(gd):
+        side["thread"] = threading.Thread(target=side_builds, args=(gd,))
+        side["thread"].start()
+    regen = own_regen(ck, {"IsaX86Db.v": text, "X86Tables.v": ttext}, ["IsaX86Db.v", "X86Tables.v"], after_first=start_side)
     gen_dir = None
     if regen is not None:
         gen_dir, failed, log = regen
@@ -837,10 +1019,14 @@ def run(ck):
     if failed:
         ck.violation("C01/coq-build", "the Coq development no longer builds: %s %s" % (failed, getattr(ck, "coq_log", "")[-600:]),
                      {"broken": "coq build of %s" % failed}, no_input=True)
+    if "thread" not in side:
+        start_side(gen_dir)        # fast path, or the fallback data-only regeneration
     obl = ck.coq_properties(gen_dir=gen_dir)
     ck.log("theorems: %d, failed: %d" % (len(obl), len([o for o in obl if not o["ok"]])))
-    impl = ck.build_harness("c01", ["c01_harness.cpp"])
-    model = ck.ocaml_model("Extract_X86.v", ["zconv.ml", "c01_driver.ml"], name="c01", gen_dir=gen_dir)
+    side["thread"].join()
+    if "error" in side:
+        raise side["error"]
+    impl, model = side["impl"], side["model"]
     aliases = load_aliases()
     db_aliases = set()
     dbal = os.path.join(vlib.VERIF, "corpus", "C01_db_alias.txt")
@@ -891,6 +1077,10 @@ def run(ck):
     llvm_hb = lambda c, hb: hb[2:] if is_wait(c) and hb.startswith("9b") else hb
     rejected = len([a for a in ans if a.startswith("ERR")])
     dirty = [(c, a) for c, a in zip(calls, ans) if a.startswith("ERR") and a.split()[2] != "0"]
+    for c, a in [(c, a) for c, a in zip(calls, ans) if a.startswith("DIRTY-FRONT")][:5]:
+        ck.violation("C01/%s/bytes-before-the-instruction-changed" % c["name"], "the call `%s` changed bytes in front of the instruction (%s)"
+                     % (harness_line(c), a), {"call": c, "impl": a})
+    frame_checked = len([a for a in ans if a.startswith("OK") or a.startswith("ERR")])
     noinst = sorted(set(c["name"] for c, a in zip(calls, ans) if a == "NOINST"))
     ck.log("accepted %d, rejected %d, unknown mnemonics %d" % (len(acc), rejected, len(noinst)))
     for c, a in dirty[:5]:
@@ -948,6 +1138,7 @@ def run(ck):
     covered_rows = set()
     nontrivial = set()
     samples = []
+    mod_checked = mod_mismatch = 0
     alias_seen = {}
     VERD = {"1": "no-decoding", "2": "wrong-instruction-or-operands", "3": "wrong-length", "9": "model-crash"}
     for i, ((c, hb), v) in enumerate(zip(acc, verd)):
@@ -955,6 +1146,20 @@ def run(ck):
         vcode = vparts[0].strip()
         vcands = vparts[1].strip() if len(vparts) > 1 else ""
         vothers = [int(x) for x in vparts[2].strip().split(",") if x.strip()] if len(vparts) > 2 else []
+        # a piece of the emitter inside the model: the ModRM.mod field AsmJit emitted against X86Choice.aj_mod (proved admissible and
+        # shortest) of the memory operand the bytes decode to, for the matched rows of verdict-0 calls with a base register
+        vmod = [x.strip() for x in vparts[3].strip().split(",") if x.strip()] if len(vparts) > 3 else []
+        if vcode == "0" and vmod:
+            mod_checked += 1
+            if any(x.endswith("-") for x in vmod) and not any(o[0] == "M" and (o[3] == 20 or o[10] != 0) for o in c["ops"]):
+                mod_mismatch += 1
+                a16evex = any(o[0] == "M" and (o[3] == 2 or o[5] == 2) for o in c["ops"]) and enc_kind_of(hb) == "evex"
+                if mod_mismatch <= 3 or a16evex:
+                    # EVEX with 16-bit addressing: the emitter's 16-bit branch knows no disp8*N (the known finding); there the longer
+                    # disp16 form is what it emits for a displacement the compressed form could hold
+                    ck.violation(("C01/evex-16bit-addressing-disp8-not-scaled/%s" if a16evex else "C01/%s/mod-choice-not-as-modelled") % c["name"], "the ModRM.mod field of the accepted call `%s` (bytes %s) is not the "
+                                 "one X86Choice.aj_mod (the model of EmitModSib's choice: shortest admissible displacement form) gives: %s"
+                                 % (harness_line(c), hb, vmod), {"call": c, "impl": hb, "broken": "X86Choice.aj_mod as a description of the emitter"})
         row = byid.get(c["row"])
         st, ltext, lbytes, linsts = ll.get(i, ("desync", "", 0, 0))
         lprobs = None
@@ -1107,18 +1312,27 @@ def run(ck):
          "rule": "calls generated from every supported database row x mode x register/memory/immediate/decoration strata (seeded); a case is "
                  "non-trivial when the assembler ACCEPTED it and the proven decoder mapped its bytes back to exactly the call; counted: distinct "
                  "(row, mode, memory stratum, reg/mem form, options used)",
-         "samples": samples, "accepted": len(acc), "rejected_by_assembler": rejected, "mnemonics_unknown_to_asmjit": noinst[:50],
+         "proved_for_all_inputs": "structural decoder inverts structural encoder (any bytes after); denotation soundness / containment / uniqueness of the "
+                                  "mnemonic and of the operand specifications; decoders return suffixes (every reading 1..|bytes| long); meaning of judge verdict 0 "
+                                  "(operands, prefixes, decorations, exact length); the two readings of 9B-prefixed bytes",
+         "rechecked_by_kernel_on_every_run": "database well-formedness / indexing / uniqueness / same-operand lemmas over the re-translated db/isa_x86.json; AsmJit's static "
+                                             "tables = specification; opcode words, handler literals (read from x86assembler.cpp) and x87 derived forms vs. database, both "
+                                             "directions per class list; enum numbers of the classes named by number; witnesses",
+         "compared_per_call": "every generated call (all rows x modes x strata listed in input_distribution; the pinned-* strata are walked for EVERY row, the others are "
+                              "seeded draws) is emitted by the real assembler, judged by the extracted Coq judge and re-decoded by llvm-mc; that AsmJit's bytes are "
+                              "specification encodings is established on these calls only",
+         "example_calls_with_both_readings": samples, "accepted": len(acc), "rejected_by_assembler": rejected, "mnemonics_unknown_to_asmjit": noinst[:50],
          "db_rows": len(rows), "db_rows_supported": len(sup_rows), "db_rows_with_accepted_and_verified_call": len(covered_rows),
          "supported_row_mnemonics_never_accepted": never[:80], "supported_row_mnemonics_never_accepted_count": len(never),
          "unsupported": {k: {"rows": len(v), "mnemonics": sorted(set(v))[:40]} for k, v in sorted(uns.items())},
          "asmjit_tables": tinfo,
          "db_rows_repaired": sorted(set("%s [%s]" % (r["name"], r["repaired"]) for r in rows if r.get("repaired")))[:60], "input_distribution": strata, "oracle": stats, "known_base_address_calls": len([1 for c, _ in acc if c.get("base")]),
-         "known_base_address_calls_encoded_rip_relative": rip_readings, "x87_wait_form_calls_verified": wait_forms_verified, "mnemonics_with_fixed_base_memory_signature": fixed_sig_names, "mnemonics_llvm_mc_14_never_decodes": sorted(llvm_never)[:300], "database_regenerated": regen is not None},
+         "known_base_address_calls_encoded_rip_relative": rip_readings, "x87_wait_form_calls_verified": wait_forms_verified, "calls_with_unchanged_bytes_in_front_of_the_instruction": frame_checked, "calls_whose_mod_field_is_the_modelled_choice": mod_checked - mod_mismatch, "calls_whose_mod_field_differs_from_the_modelled_choice": mod_mismatch, "mnemonics_with_fixed_base_memory_signature": fixed_sig_names, "mnemonics_llvm_mc_14_never_decodes": sorted(llvm_never)[:300], "database_regenerated": regen is not None},
         assumptions=["the C++ harness calls the real x86::Assembler::_emit of /repo's working tree with DiagnosticOptions::kValidateAssembler",
                      "theorems are about the Gallina structural encoder/decoder; that AsmJit's bytes are decodable to the call is established on the generated calls only",
                      "the structural decoding rules (X86Model.v) and the disp8*N table (X86Denote.v) were written by hand from the Intel SDM; llvm-mc 14 cross-checks them on every accepted encoding it knows",
                      "tools/c01_isa.js + tools/c01_db.py (and the repository's own db/index.js expansion) are trusted to translate db/isa_x86.json faithfully"],
         checker_cmd="coqc (Coq 8.16.1) -Q coq/theories Verif -Q coq/gen VerifGen coq/theories/Properties/Properties_C01.v  [full .vo build of its dependencies; coq/gen/IsaX86Db.v regenerated from /repo and recompiled when it differs]",
         trusted_base=["Coq 8.16.1 kernel incl. vm_compute (no native_compute)", "extraction (ExtrOcamlBasic only) + OCaml 4.13.1 + zarith glue in ml/zconv.ml",
-                      "harness/c01_harness.cpp, ml/c01_driver.ml, tools/checks/c01.py (generator, llvm-mc comparison), tools/c01_db.py, tools/c01_isa.js, node, /repo/db/*.js",
+                      "harness/c01_harness.cpp, harness/c01_dump.cpp, ml/c01_driver.ml, tools/checks/c01.py (generator, llvm-mc comparison), tools/c01_db.py, tools/c01_isa.js, tools/c01_tables.py (incl. the regular expressions that read handler literals and the EncodingId enum from the source text), node, /repo/db/*.js",
                       "llvm-mc 14.0.6 as independent decoder"])
